@@ -10,8 +10,8 @@ import vlib
 from vlib import Report, run_tlc, tlc_must_pass, extract_lines, write_ndjson, read_ndjson, xv_json, workdir
 
 PID = "C02"
-FRAGS = {"quick": [("zoo", 4), ("zoo2", 5), ("locloop", 6), ("do", 3), ("mix", 3)],
-         "thorough": [("zoo", 5), ("zoo2", 6), ("locloop", 8), ("do", 5), ("mix", 5), ("def", 5), ("case", 4), ("begin", 4)]}
+FRAGS = {"quick": [("zoo", 4), ("zoo2", 5), ("locloop", 6), ("do", 3), ("mix", 3), ("late", 4)],
+         "thorough": [("zoo", 5), ("zoo2", 6), ("locloop", 8), ("do", 5), ("mix", 5), ("def", 5), ("case", 4), ("begin", 4), ("late", 5)]}
 RANDOM = {"quick": (1500, 30), "thorough": (20000, 45)}
 
 CFG = """SPECIFICATION Spec
